@@ -154,6 +154,8 @@ def run(tier):
                     where += ":" + str(ev.get("res"))[:40]
                 verd.witness(v["o"], where, "scenario %s event %d %s; dials=%s" % (sid, v["at"], json.dumps(ev)[:200], dlog),
                              {"scenario": byid[sid], "observer": v["o"], "event": v["at"], "trace": res["evs"]})
+    import dialer_family
+    dialer_runs = dialer_family.c09(binary, verd)
     rc = verd.finish()
     vlib.write_evidence(PID, tier, "model_checking", {
         "states": r.states + totals["states"], "transitions": r.generated + totals["states"],
